@@ -74,6 +74,10 @@ var templates = []tmpl{
 	{"c05_forto", []ddp.Param{{"t", "Text"}, {"n", "Zahl"}}, "eine Zahl", "Die Zahl s ist 0.\n\tFür jede Zahl i von 1 bis (die Länge von (t verkettet mit \"ab\")), mache:\n\t\tErhöhe s um i.\n\tGib s zurück."},
 	{"c05_catempty", []ddp.Param{{"t", "Text"}, {"a", W}}, "einen Text", "Der Text u ist \"\".\n\tWenn a, Speichere \"u\" in u.\n\tGib (t verkettet mit \"x\") verkettet mit u zurück."},
 	{"c05_listcat", []ddp.Param{{"t", "Text"}, {"u", "Text"}}, "eine Text Liste", "Gib t verkettet mit u als Text Liste zurück."},
+	// 'n Mal wert': a list of n copies of a temporary / of a variable, n = 0..2
+	{"c05_times", []ddp.Param{{"t", "Text"}, {"n", "Zahl"}}, "eine Zahl", "Die Text Liste l ist n Mal (t verkettet mit \"m\").\n\tGib die Länge von l zurück."},
+	{"c05_timesvar", []ddp.Param{{"t", "Text"}, {"n", "Zahl"}}, "eine Text Liste", "Die Text Liste l ist n Mal t.\n\tGib l zurück."},
+	{"c05_timesstruct", []ddp.Param{{"t", "Text"}, {"n", "Zahl"}}, "eine Zahl", "Die Eintrag Liste l ist n Mal (ein Eintrag mit name gleich t).\n\tGib die Länge von l zurück."},
 }
 
 // textExpr builds a Text of n characters from the Zahl parameters z0..z(n-1) of a wrapper.
@@ -293,7 +297,7 @@ func (x *ctx) cellTemplate(t tmpl, opt, n int) {
 			args = append(args, llse.Val{E: h.Var(p.Name, 1)})
 		case "Zahl":
 			v := h.Var(p.Name, 64)
-			if t.name == "c05_while" || t.name == "c05_forto" {
+			if t.name == "c05_while" || t.name == "c05_forto" || strings.HasPrefix(t.name, "c05_times") {
 				h.St.Assume(c.And(c.SGE(v, c.BV(64, 0)), c.SLE(v, c.BV(64, 2))))
 			}
 			args = append(args, llse.Val{E: v})
@@ -473,7 +477,7 @@ func Specs() (string, []WSpec) {
 				case W:
 					w.Params = append(w.Params, "bool")
 				case "Zahl":
-					if t.name == "c05_while" || t.name == "c05_forto" {
+					if t.name == "c05_while" || t.name == "c05_forto" || strings.HasPrefix(t.name, "c05_times") {
 						w.Params = append(w.Params, "zahl02")
 					} else {
 						w.Params = append(w.Params, "zahl")
